@@ -2,18 +2,31 @@
 
    Statements only; lemmas in Proofs/DailyDocProofs.v, Proofs/DailyClosedFormProofs.v, Proofs/HourlyDocProofs.v,
    Proofs/CalTrackDocProofs.v; models in Model/Json.v (JSON trees), Model/DocSchema.v (settings re-validation),
-   Model/DailyDoc.v, Model/HourlyDoc.v, Model/CalTrackDoc.v; the two daily settings schemas and the default
-   settings documents are regenerated from the package on every run (Generated/C01Gen.v).
+   Model/DailyDoc.v, Model/HourlyDoc.v, Model/CalTrackDoc.v; the two daily settings schemas, the default settings
+   documents and the float-typed hourly settings fields are regenerated from the package on every run
+   (Generated/C01Gen.v).
+
+   The models describe the code AS IT IS.  Five defects found with this property were repaired in /repo
+   (394645be, f37e6233, 3d0f44c1, 180dc305, c3a9d07e); for each, the model of the code BEFORE the repair is kept
+   under a name that says so, together with the theorem that it violates the statement ("..._regression_...").
+   Those witnesses are replayed on the implementation by every run (corpus/C01.json and the fit profiles of
+   harness/c01fits.py): should a repair be undone, the oracle reports the concrete input.
 
    Reading guide (daily / billing)
      daily_state               what a fitted or reloaded DailyModel / BillingModel carries and to_dict writes
      to_doc c s                c.to_dict() as a JSON tree (c = Daily | Billing; Billing forces developer_mode)
-     from_doc cur leg c d      c.from_dict(d): Some state, or None when the constructor / pydantic raises
+     from_doc cur leg c d      c.from_dict(d): Some state, or None when the constructor / pydantic raises;
+                               a DailyModel document the current settings class rejects is read with the legacy class
+     from_doc_one_class        the reader before 394645be (one settings class per model class)
      accepts sch settings      the settings class with schema sch accepts the stored settings tree
+     maps_of sch s             (month -> season, day -> weekday/weekend) as the model's settings give them
+     predict_day maps s m d T  which sub-model(s) predict a day of month m / weekday d, and their prediction at T:
+                               _meter_segment through combo_dictionary (built from the settings by __init__) and the
+                               season column (built from the settings by _initialize_data)
      restores c s s'           s' re-serialises to the same document, predicts like s for every sub-model and
                                temperature (binary64 payloads, Leibniz equality = bit-identical), reads the same
-                               month->season and day->weekday/weekend maps, and keeps timezone, warnings,
-                               disqualifications
+                               month->season and day->weekday/weekend maps AND routes and predicts every day with
+                               them identically, and keeps timezone, warnings, disqualifications
      profile                   the constructor that made the model: DailyModel(model="current"),
                                DailyModel(model="legacy"), BillingModel()                                      *)
 From Coq Require Import Reals Lra ZArith List Bool String PrimFloat.
@@ -28,6 +41,9 @@ Notation from_doc' := (from_doc cur leg).
 Notation restores' := (restores cur leg).
 
 Print restores.
+Print predict_day.
+Print route.
+Print covers.
 Print accepts.
 Print accepts_field.
 
@@ -46,28 +62,47 @@ Definition C01_daily_holds (p : profile) (s : daily_state) : Prop :=
 Definition C01_daily_statement : Prop :=
   forall p s, wf_state s -> accepts (ctor_schema p) (ds_settings s) = true -> C01_daily_holds p s.
 
-(* what a reload restores, whatever the class: everything, exactly when the settings are accepted again *)
-Theorem C01_daily_from_doc_to_doc : forall c s, wf_state s ->
-  from_doc' c (to_doc c s) =
-  if accepts (schema_of cur leg c) (settings_out c (ds_settings s))
-  then Some (with_settings s (settings_out c (ds_settings s))) else None.
-Proof. exact (from_doc_to_doc cur leg). Qed.
-Print Assumptions C01_daily_from_doc_to_doc.
-
-(* current profile (default, custom season / weekday maps, developer-mode overrides): holds *)
-Theorem C01_daily_roundtrip_current : forall s, wf_state s -> accepts cur (ds_settings s) = true ->
-  C01_daily_holds PCurrent s.
-Proof. exact (daily_roundtrip_l cur leg). Qed.
-Print Assumptions C01_daily_roundtrip_current.
-
-(* billing profile: holds (the forced developer_mode flag never makes the legacy class reject) *)
 Lemma legacy_dev_leaf_ok : dev_leaf_ok leg = true.
 Proof. vm_compute. reflexivity. Qed.
 
-Theorem C01_billing_roundtrip : forall s, wf_state s -> accepts leg (ds_settings s) = true ->
-  C01_daily_holds PBilling s.
-Proof. intros s Hwf Hacc. exact (billing_roundtrip_l cur leg s Hwf legacy_dev_leaf_ok Hacc). Qed.
-Print Assumptions C01_billing_roundtrip.
+(* from_dict on to_dict's document, in closed form, for every state *)
+Theorem C01_daily_from_doc_to_doc : forall c s, wf_state s ->
+  from_doc' c (to_doc c s) =
+  match c with
+  | Daily => if accepts cur (ds_settings s) || accepts leg (ds_settings s) then Some s else None
+  | Billing => if accepts leg (force_dev (ds_settings s)) then Some (with_settings s (force_dev (ds_settings s))) else None
+  end.
+Proof. exact (from_doc_to_doc cur leg). Qed.
+Print Assumptions C01_daily_from_doc_to_doc.
+
+(* THE STATEMENT HOLDS for the code as it is: current profile (default, custom season / weekday maps, developer
+   overrides), legacy profile, billing profile (the forced developer flag never makes the legacy class reject) *)
+Theorem C01_daily_roundtrip : C01_daily_statement.
+Proof.
+  intros p s Hwf Hacc. unfold C01_daily_holds. destruct p; cbn [class_of ctor_schema] in *.
+  - apply (daily_roundtrip_l cur leg s Hwf). left. exact Hacc.
+  - apply (daily_roundtrip_l cur leg s Hwf). right. exact Hacc.
+  - exact (billing_roundtrip_l cur leg s Hwf legacy_dev_leaf_ok Hacc).
+Qed.
+Print Assumptions C01_daily_roundtrip.
+
+(* in particular the restored routing is the original's: every day goes to the same sub-model with the same numbers *)
+Theorem C01_daily_days_predicted_identically : forall p s, wf_state s -> accepts (ctor_schema p) (ds_settings s) = true ->
+  exists s', from_doc' (class_of p) (to_doc (class_of p) s) = Some s' /\
+    forall month dow T,
+      predict_day (maps_of (schema_of cur leg (class_of p)) s') s' month dow T =
+      predict_day (maps_of (schema_of cur leg (class_of p)) s) s month dow T.
+Proof.
+  intros p s Hwf Hacc. destruct (C01_daily_roundtrip p s Hwf Hacc) as (s' & Hs & _ & _ & _ & Hday & _).
+  exists s'. split; [exact Hs | exact Hday].
+Qed.
+Print Assumptions C01_daily_days_predicted_identically.
+
+(* exact guard for DailyModel: one of the two settings classes accepts the stored tree *)
+Theorem C01_daily_roundtrip_iff : forall s, wf_state s ->
+  (from_doc' Daily (to_doc Daily s) = Some s <-> accepts cur (ds_settings s) || accepts leg (ds_settings s) = true).
+Proof. exact (daily_roundtrip_iff cur leg). Qed.
+Print Assumptions C01_daily_roundtrip_iff.
 
 (* any document the class reads at all (written by this package or not): the object it yields writes a document
    that reads back to an object which restores everything -- reloaded models are fixed points *)
@@ -76,19 +111,7 @@ Theorem C01_daily_reload_stable : forall c d s, from_doc' c d = Some s ->
 Proof. intros c d s. exact (reload_stable_l cur leg c d s legacy_dev_leaf_ok). Qed.
 Print Assumptions C01_daily_reload_stable.
 
-(* DailyModel of any profile: the exact guard is that the *current* settings class accepts the stored tree *)
-Theorem C01_daily_roundtrip_partial : forall p s, wf_state s -> class_of p = Daily ->
-  (C01_daily_holds p s <-> accepts cur (ds_settings s) = true).
-Proof.
-  intros p s Hwf Hc. unfold C01_daily_holds. rewrite Hc. split.
-  - intros (s' & H & _). rewrite (from_doc_to_doc cur leg Daily s Hwf) in H. cbn [schema_of settings_out] in H.
-    destruct (accepts cur (ds_settings s)); [reflexivity | discriminate].
-  - intros H. exact (daily_roundtrip_l cur leg s Hwf H).
-Qed.
-Print Assumptions C01_daily_roundtrip_partial.
-
-(* legacy profile of DailyModel: refuted (finding C01-K1, DESIGN D6).  The witness is the default legacy model:
-   its settings are what DailyLegacySettings().model_dump() writes. *)
+(* witnesses *)
 Definition tidd_sub : submodel :=
   {| sm_key := "fw-su_sh_wi";
      sm_c := Build_coeffs F Tidd 20%float None None None None None None;
@@ -97,54 +120,63 @@ Definition tidd_sub : submodel :=
 Definition legacy_witness : daily_state :=
   {| ds_subs := [tidd_sub]; ds_error := JObj []; ds_tz := "UTC"; ds_dq := []; ds_warnings := [];
      ds_settings := legacy_default_settings |}.
-
 Lemma legacy_witness_wf : wf_state legacy_witness.
 Proof. split; constructor. Qed.
 
-Theorem C01_daily_roundtrip_legacy_refuted :
+(* regression witness (finding C01-K1, fixed by 394645be): without the legacy fallback the default legacy DailyModel
+   -- its settings are what DailyLegacySettings().model_dump() writes -- cannot be read back *)
+Theorem C01_regression_one_settings_class_refuted :
   wf_state legacy_witness /\ accepts (ctor_schema PLegacy) (ds_settings legacy_witness) = true /\
-  from_doc' (class_of PLegacy) (to_doc (class_of PLegacy) legacy_witness) = None.
-Proof. split; [exact legacy_witness_wf|]. split; vm_compute; reflexivity. Qed.
-Print Assumptions C01_daily_roundtrip_legacy_refuted.
+  from_doc_one_class cur leg Daily (to_doc Daily legacy_witness) = None /\
+  from_doc' Daily (to_doc Daily legacy_witness) = Some legacy_witness.
+Proof. split; [exact legacy_witness_wf|]. repeat split; vm_compute; reflexivity. Qed.
+Print Assumptions C01_regression_one_settings_class_refuted.
 
-Theorem C01_daily_statement_refuted : ~ C01_daily_statement.
-Proof.
-  intros H. destruct C01_daily_roundtrip_legacy_refuted as (Hwf & Hacc & Hnone).
-  destruct (H PLegacy legacy_witness Hwf Hacc) as (s' & Hs & _). rewrite Hnone in Hs. discriminate.
-Qed.
-Print Assumptions C01_daily_statement_refuted.
+Theorem C01_regression_one_settings_class_iff : forall s, wf_state s ->
+  (from_doc_one_class cur leg Daily (to_doc Daily s) = Some s <-> accepts cur (ds_settings s) = true) /\
+  (from_doc_one_class cur leg Daily (to_doc Daily s) = None <-> accepts cur (ds_settings s) = false).
+Proof. exact (one_class_roundtrip_iff cur leg). Qed.
+Print Assumptions C01_regression_one_settings_class_iff.
 
-(* with the proposed repair (read a rejected DailyModel document with the legacy class) the full statement holds *)
-Theorem C01_daily_roundtrip_repaired : forall p s, wf_state s -> class_of p = Daily ->
-  accepts (ctor_schema p) (ds_settings s) = true ->
-  from_doc_repaired cur leg Daily (to_doc Daily s) = Some s.
-Proof.
-  intros p s Hwf Hc Hacc. apply repaired_roundtrip_l; [exact Hwf|].
-  destruct p; [left | right | discriminate Hc]; exact Hacc.
-Qed.
-Print Assumptions C01_daily_roundtrip_repaired.
-
-(* non-vacuity: default models of the three profiles, a developer-mode legacy model and a custom season map *)
-Definition current_witness : daily_state :=
-  {| ds_subs := [tidd_sub]; ds_error := JObj [("RMSE", JNum 1%float)]; ds_tz := "US/Pacific";
+(* non-vacuity: a two-way weekday/weekend split under a re-mapped Friday; the routing follows the stored map *)
+Definition wdwe_settings : json :=
+  match current_default_settings with
+  | JObj o => JObj (set "weekday_weekend"
+                        (JObj [("monday", JStr "weekday"); ("tuesday", JStr "weekday"); ("wednesday", JStr "weekday");
+                               ("thursday", JStr "weekday"); ("friday", JStr "weekend"); ("saturday", JStr "weekend");
+                               ("sunday", JStr "weekend"); ("options", JArr [JStr "weekday"; JStr "weekend"])]) o)
+  | j => j
+  end.
+Definition wdwe_witness : daily_state :=
+  {| ds_subs := [{| sm_key := "wd-su_sh_wi"; sm_c := Build_coeffs F Tidd 20%float None None None None None None;
+                    sm_tc := Build_tconstr F 10%float 90%float 10%float 90%float; sm_func := 1%float |};
+                 {| sm_key := "we-su_sh_wi"; sm_c := Build_coeffs F Tidd 35%float None None None None None None;
+                    sm_tc := Build_tconstr F 10%float 90%float 10%float 90%float; sm_func := 2%float |}];
+     ds_error := JObj [("RMSE", JNum 1%float)]; ds_tz := "US/Pacific";
      ds_dq := [{| w_name := "eemeter.model_fit_metrics.cvrmse"; w_desc := "Fit model has CVRMSE > 1.0";
                   w_data := JObj [("CVRMSE", JNum 2%float)] |}];
-     ds_warnings := []; ds_settings := current_default_settings |}.
+     ds_warnings := []; ds_settings := wdwe_settings |}.
 
 Example C01_current_nonvacuous :
-  accepts cur (ds_settings current_witness) = true /\
-  from_doc' Daily (to_doc Daily current_witness) = Some current_witness.
-Proof. split; vm_compute; reflexivity. Qed.
+  accepts cur (ds_settings wdwe_witness) = true /\
+  from_doc' Daily (to_doc Daily wdwe_witness) = Some wdwe_witness /\
+  (* a Friday (5) of July goes to the weekend model, a Thursday (4) to the weekday model *)
+  route (maps_of cur wdwe_witness) (ds_subs wdwe_witness) 7 5 = ["we-su_sh_wi"] /\
+  route (maps_of cur wdwe_witness) (ds_subs wdwe_witness) 7 4 = ["wd-su_sh_wi"] /\
+  (* ... which a reader that routed with the DEFAULT day map would get wrong *)
+  route (season_map cur current_default_settings, weekday_map cur current_default_settings)
+        (ds_subs wdwe_witness) 7 5 = ["wd-su_sh_wi"].
+Proof. repeat split; vm_compute; reflexivity. Qed.
 
 Example C01_billing_nonvacuous :
   accepts leg legacy_default_settings = true /\
   from_doc' Billing (to_doc Billing legacy_witness) = Some (with_settings legacy_witness billing_default_settings).
 Proof. split; vm_compute; reflexivity. Qed.
 
-(* a legacy model made in developer mode does reload through DailyModel (the guard of _partial is satisfiable
-   for profile PLegacy), and the two settings classes differ in defaults only *)
-Example C01_legacy_developer_mode_reloads :
+(* the two settings classes differ in defaults only; a developer-mode legacy tree is accepted by both *)
+Example C01_schemas_nonvacuous :
   accepts leg (force_dev legacy_default_settings) = true /\ accepts cur (force_dev legacy_default_settings) = true /\
+  accepts cur current_default_settings = true /\ accepts cur legacy_default_settings = false /\
   same_shape cur leg = true /\ defaults_ok cur = true /\ defaults_ok leg = true.
 Proof. repeat split; vm_compute; reflexivity. Qed.
 
@@ -168,7 +200,7 @@ Print C_term.
 (* prediction = intercept + H(T) + C(T), H(T) = beta_h S(bp_h' - T, k_h), C(T) = beta_c S(T - bp_c', k_c),
    S the documented smoothed hinge, (bp', k, beta) = the vector the stored parameters determine
    (C11_effective_vector of Properties/C11.v relates it to the stored balance points and percent-k);
-   adm / off_corner: the guards of C11 (the corner is finding D16 / C11-F1) *)
+   adm / off_corner: the guards of C11 (the corner is finding D16 / C01-K6) *)
 Theorem C01_daily_closed_form : forall c tc, admissible lo hi c tc -> off_corner lo hi c tc -> forall T : R,
   predict_submodel RNum c tc T =
     Some ((intercept c + H_term lo hi (eff lo hi c tc) T + C_term lo hi (eff lo hi c tc) T)%R,
@@ -206,11 +238,17 @@ From V Require Import Model.HourlyDoc Proofs.HourlyDocProofs.
 (* Reading guide (hourly)
      hourly_state              the attributes HourlyModel.to_dict reads (Model/HourlyDoc.v)
      hourly_to_doc s           to_dict() as a JSON tree; None = it raises
-     hourly_from_doc paths d   from_dict(d); None = it raises; paths = the float-typed settings fields (generated)
+     hourly_from_doc paths d   from_dict(d) as coded; None = it raises; paths = the float-typed settings fields (generated)
+     hourly_from_doc_before_c3a9d07e   the reader that called .items() on a null edge-bin map
      inputs_of s               exactly the fields the prediction path reads (incl. timezone guard, disqualification gate)
-     coerce paths st           pydantic's re-validation of the settings tree: an int in a float-typed field becomes a float *)
+     coerce paths st           pydantic's re-validation of the settings tree: an int in a float-typed field becomes a float;
+                               validated s := it changes nothing (true of every settings object a constructor validated,
+                               provided the class DEFAULTS are floats too: C01_hourly_defaults_validated, over the
+                               regenerated default document)                                                       *)
 Notation hpaths := hourly_float_paths.
 Print hourly_inputs.
+
+Definition validated (s : hourly_state) : Prop := coerce hpaths (hs_settings s) = hs_settings s.
 
 Definition C01_hourly_holds (s : hourly_state) : Prop :=
   exists d s', hourly_to_doc s = Some d /\ hourly_from_doc hpaths d = Some s' /\
@@ -219,33 +257,30 @@ Definition C01_hourly_holds (s : hourly_state) : Prop :=
                hs_tz s' = hs_tz s /\ hs_warnings s' = hs_warnings s /\ hs_dq s' = hs_dq s.
 
 Definition C01_hourly_statement : Prop :=
-  forall s d, wf_hourly s -> hourly_to_doc s = Some d -> C01_hourly_holds s.
+  forall s d, wf_hourly s -> validated s -> hourly_to_doc s = Some d -> C01_hourly_holds s.
 
 (* what from_dict makes of to_dict's document, in general *)
 Theorem C01_hourly_from_doc_to_doc : forall s d, wf_hourly s -> hourly_to_doc s = Some d ->
-  hourly_from_doc hpaths d =
-  match hs_edge_coeffs s with
-  | None => None
-  | Some _ => Some (with_hsettings s (coerce hpaths (hs_settings s)))
-  end.
-Proof. intros s d Hwf Hd. exact (hourly_from_to_gen hpaths false s d Hwf Hd). Qed.
+  hourly_from_doc hpaths d = Some (with_hsettings s (coerce hpaths (hs_settings s))).
+Proof. exact (hourly_from_to hpaths). Qed.
 Print Assumptions C01_hourly_from_doc_to_doc.
 
-(* exact guards: edge-bin coefficients present (include_edge_bins) and a settings tree whose float-typed fields
-   hold floats *)
-Theorem C01_hourly_roundtrip_partial : forall s d, wf_hourly s -> hourly_to_doc s = Some d ->
-  hs_edge_coeffs s <> None -> coerce hpaths (hs_settings s) = hs_settings s -> C01_hourly_holds s.
+(* THE STATEMENT HOLDS for the code as it is (with or without edge bins) *)
+Theorem C01_hourly_roundtrip : C01_hourly_statement.
 Proof.
-  intros s d Hwf Hd He Hn. exists d, s. split; [exact Hd|]. split.
-  - rewrite (C01_hourly_from_doc_to_doc s d Hwf Hd). destruct (hs_edge_coeffs s); [|contradiction].
-    rewrite Hn, with_hsettings_same. reflexivity.
+  intros s d Hwf Hn Hd. exists d, s. split; [exact Hd|]. split.
+  - rewrite (C01_hourly_from_doc_to_doc s d Hwf Hd). unfold validated in Hn. rewrite Hn, with_hsettings_same. reflexivity.
   - repeat split; try reflexivity. exact Hd.
 Qed.
-Print Assumptions C01_hourly_roundtrip_partial.
+Print Assumptions C01_hourly_roundtrip.
 
-(* without the second guard everything but the number *text* of those settings fields is still restored:
-   integer keys of the edge-bin map, scalers, coefficients, clusters, bins, metadata ... *)
-Theorem C01_hourly_roundtrip_fields : forall s d, wf_hourly s -> hourly_to_doc s = Some d -> hs_edge_coeffs s <> None ->
+(* the defaults of the settings classes are validated values (regenerated default document): holds since 180dc305 *)
+Theorem C01_hourly_defaults_validated : coerce hpaths hourly_default_settings = hourly_default_settings.
+Proof. vm_compute. reflexivity. Qed.
+Print Assumptions C01_hourly_defaults_validated.
+
+(* field by field, also for a tree that is not validated: everything but the number text of those fields *)
+Theorem C01_hourly_roundtrip_fields : forall s d, wf_hourly s -> hourly_to_doc s = Some d ->
   exists s', hourly_from_doc hpaths d = Some s' /\
     hs_settings s' = coerce hpaths (hs_settings s) /\ hs_edge_coeffs s' = hs_edge_coeffs s /\
     hs_clusters s' = hs_clusters s /\ hs_bin_edges s' = hs_bin_edges s /\
@@ -260,7 +295,7 @@ Print Assumptions C01_hourly_roundtrip_fields.
 (* the prediction, as any function of the fields it reads, whose arithmetic does not tell an int from the equal float *)
 Theorem C01_hourly_predict_restored : forall (data result : Type) (predict_fn : hourly_inputs -> data -> result),
   reads_values hpaths data result predict_fn ->
-  forall s d, wf_hourly s -> hourly_to_doc s = Some d -> hs_edge_coeffs s <> None ->
+  forall s d, wf_hourly s -> hourly_to_doc s = Some d ->
   exists s', hourly_from_doc hpaths d = Some s' /\ forall x, predict_fn (inputs_of s') x = predict_fn (inputs_of s) x.
 Proof. exact (hourly_predict_restored_l hpaths). Qed.
 Print Assumptions C01_hourly_predict_restored.
@@ -269,7 +304,7 @@ Print Assumptions C01_hourly_predict_restored.
 Lemma hpaths_avoid_train_features : forallb (path_avoids "train_features") hpaths = true.
 Proof. vm_compute. reflexivity. Qed.
 
-Theorem C01_hourly_reserialise : forall s d, wf_hourly s -> hourly_to_doc s = Some d -> hs_edge_coeffs s <> None ->
+Theorem C01_hourly_reserialise : forall s d, wf_hourly s -> hourly_to_doc s = Some d ->
   let s' := with_hsettings s (coerce hpaths (hs_settings s)) in
   hourly_from_doc hpaths d = Some s' /\
   exists d', hourly_to_doc s' = Some d' /\ hourly_from_doc hpaths d' = Some s'.
@@ -277,12 +312,9 @@ Proof. intros s d. exact (hourly_reserialise_l hpaths s d hpaths_avoid_train_fea
 Print Assumptions C01_hourly_reserialise.
 
 (* the integer keys of the edge-bin map come back as integers (what the prediction path indexes with) *)
-Theorem C01_hourly_edge_keys_restored : forall s d n, wf_hourly s -> hourly_to_doc s = Some d -> hs_edge_coeffs s <> None ->
+Theorem C01_hourly_edge_keys_restored : forall s d n, wf_hourly s -> hourly_to_doc s = Some d ->
   exists s', hourly_from_doc hpaths d = Some s' /\
-    match hs_edge_coeffs s', hs_edge_coeffs s with
-    | Some l', Some l => edge_lookup n l' = edge_lookup n l
-    | _, _ => False
-    end.
+    edge_lookup_opt n (hs_edge_coeffs s') = edge_lookup_opt n (hs_edge_coeffs s).
 Proof. exact (hourly_edge_keys_restored_l hpaths). Qed.
 Print Assumptions C01_hourly_edge_keys_restored.
 
@@ -317,58 +349,47 @@ Qed.
 Lemma edges2_ok : match edges2 with Some l => keys_ok l | None => True end.
 Proof. cbn. repeat constructor; cbn; discriminate. Qed.
 
-(* non-vacuity of the guarded theorem *)
+(* non-vacuity: with edge bins, and without (include_edge_bins = False) *)
 Example C01_hourly_nonvacuous :
-  wf_hourly (h_state h_settings_ok edges2) /\
+  wf_hourly (h_state h_settings_ok edges2) /\ validated (h_state h_settings_ok edges2) /\
   (exists d, hourly_to_doc (h_state h_settings_ok edges2) = Some d /\
              hourly_from_doc hpaths d = Some (h_state h_settings_ok edges2)) /\
-  coerce hpaths h_settings_ok = h_settings_ok.
+  wf_hourly (h_state h_settings_ok None) /\
+  (exists d, hourly_to_doc (h_state h_settings_ok None) = Some d /\
+             hourly_from_doc hpaths d = Some (h_state h_settings_ok None)).
 Proof.
   split; [apply h_state_wf; [exists ["temperature"]; reflexivity | exact edges2_ok]|].
-  split; [eexists; split; [reflexivity | vm_compute; reflexivity] | vm_compute; reflexivity].
-Qed.
-
-(* refuted 1 (finding C01-K5): a model fitted with include_edge_bins = False stores null, from_dict calls .items() on it *)
-Theorem C01_hourly_no_edge_bins_refuted :
-  wf_hourly (h_state h_settings_ok None) /\
-  exists d, hourly_to_doc (h_state h_settings_ok None) = Some d /\ hourly_from_doc hpaths d = None.
-Proof.
+  split; [vm_compute; reflexivity|].
+  split; [eexists; split; [reflexivity | vm_compute; reflexivity]|].
   split; [apply h_state_wf; [exists ["temperature"]; reflexivity | exact I]|].
-  eexists. split; [reflexivity | vm_compute; reflexivity].
+  eexists; split; [reflexivity | vm_compute; reflexivity].
 Qed.
-Print Assumptions C01_hourly_no_edge_bins_refuted.
 
-(* ... which the proposed repair (keep None) restores *)
-Theorem C01_hourly_no_edge_bins_repaired : forall s d, wf_hourly s -> hourly_to_doc s = Some d ->
-  hourly_from_doc_repaired hpaths d = Some (with_hsettings s (coerce hpaths (hs_settings s))).
-Proof.
-  intros s d Hwf Hd. unfold hourly_from_doc_repaired. rewrite (hourly_from_to_gen hpaths true s d Hwf Hd).
-  destruct (hs_edge_coeffs s); reflexivity.
-Qed.
-Print Assumptions C01_hourly_no_edge_bins_repaired.
+(* regression witness (finding C01-K5, fixed by c3a9d07e): the reader that called .items() on the stored null fails
+   exactly on the models fitted with include_edge_bins = False *)
+Theorem C01_regression_null_edge_map_refuted : forall s d, wf_hourly s -> hourly_to_doc s = Some d ->
+  (hourly_from_doc_before_c3a9d07e hpaths d = None <-> hs_edge_coeffs s = None).
+Proof. exact (hourly_before_fix hpaths). Qed.
+Print Assumptions C01_regression_null_edge_map_refuted.
 
-(* refuted 2 (finding C01-K4): an int stored in a float-typed settings field (the unvalidated default bin_width = 12)
-   comes back as a float: the reloaded model writes "12.0" where the document says "12" *)
-Theorem C01_hourly_same_document_refuted :
-  wf_hourly (h_state h_settings_int edges2) /\
+(* regression witness (finding C01-K4, fixed by 180dc305): a settings tree with an int in a float-typed field (what an
+   unvalidated int DEFAULT leaves in the dump) is not validated, and the reloaded model writes "12.0" where the
+   document says "12" -- the hypothesis [validated] of the statement is exactly what excludes it *)
+Theorem C01_regression_int_default_refuted :
+  wf_hourly (h_state h_settings_int edges2) /\ ~ validated (h_state h_settings_int edges2) /\
   exists d s' d', hourly_to_doc (h_state h_settings_int edges2) = Some d /\ hourly_from_doc hpaths d = Some s' /\
                   hourly_to_doc s' = Some d' /\ d' <> d.
 Proof.
   split; [apply h_state_wf; [exists ["temperature"]; reflexivity | exact edges2_ok]|].
+  split.
+  { unfold validated. intros H.
+    apply (f_equal (fun j => bind (field "temperature_bin" j) (field "bin_width"))) in H. vm_compute in H. discriminate H. }
   eexists. eexists. eexists. split; [reflexivity|]. split; [vm_compute; reflexivity|]. split; [vm_compute; reflexivity|].
   intros H.
   apply (f_equal (fun j => bind (bind (field "settings" j) (field "temperature_bin")) (field "bin_width"))) in H.
   vm_compute in H. discriminate H.
 Qed.
-Print Assumptions C01_hourly_same_document_refuted.
-
-Theorem C01_hourly_statement_refuted : ~ C01_hourly_statement.
-Proof.
-  intros H. destruct C01_hourly_no_edge_bins_refuted as (Hwf & d & Hd & Hnone).
-  destruct (H _ d Hwf Hd) as (d1 & s' & Hd1 & Hf & _). rewrite Hd in Hd1. injection Hd1 as <-.
-  rewrite Hnone in Hf. discriminate.
-Qed.
-Print Assumptions C01_hourly_statement_refuted.
+Print Assumptions C01_regression_int_default_refuted.
 
 (* ================================================================== CalTRACK hourly *)
 From V Require Import Model.CalTrackDoc Proofs.CalTrackDocProofs.
@@ -376,8 +397,9 @@ From V Require Import Model.CalTrackDoc Proofs.CalTrackDocProofs.
 (* Reading guide (CalTRACK hourly)
      ct_state                  what the wrapper's to_dict reads (Model/CalTrackDoc.v)
      ct_to_doc / ct_from_doc   to_dict / from_dict as coded; None = raises
-     ct_from_doc_repaired, ct_to_doc_repaired   with the proposed patches C01-2.diff / C01-3.diff
-     reloaded_of r s           the object from_dict builds from to_dict's document (r: month keys repaired or not)
+     ct_from_doc_before_f37e6233   the reader that kept the month keys of unc_vars as the strings json produced
+     ct_to_doc_objects         the serialiser before 3d0f44c1: every warning / metrics object must have a .json()
+     reloaded_of r s           the object from_dict builds from to_dict's document (r = true: as coded)
      ct_inputs_of s            the fields the regression prediction reads
      unc_lookup u m            the uncertainty inputs predict applies to the rows of month m *)
 Print reloaded_of.
@@ -393,65 +415,64 @@ Definition C01_caltrack_holds (s : ct_state) : Prop :=
 Definition C01_caltrack_statement : Prop :=
   forall s d, wf_ct s -> month_keys (ct_unc s) -> ct_to_doc s = Some d -> C01_caltrack_holds s.
 
-Theorem C01_caltrack_from_doc_to_doc : forall repaired s d, wf_ct s -> ct_to_doc s = Some d ->
-  ct_from_doc_gen repaired d = Some (reloaded_of repaired s).
-Proof. exact ct_from_to. Qed.
+Theorem C01_caltrack_from_doc_to_doc : forall s d, wf_ct s -> ct_to_doc s = Some d ->
+  ct_from_doc d = Some (reloaded_of true s).
+Proof. intros s d Hwf Hd. rewrite (ct_to_doc_native s Hwf) in Hd. exact (ct_from_to true s d Hwf Hd). Qed.
 Print Assumptions C01_caltrack_from_doc_to_doc.
+
+Lemma month_keys_canonical : forall u, month_keys u -> Forall (fun kv : ukey * json => canonical (fst kv)) u.
+Proof.
+  intros u H. unfold month_keys in H. rewrite Forall_forall in *. intros kv Hin. specialize (H kv Hin).
+  destruct (fst kv); cbn in *; [exact I | exact H | contradiction].
+Qed.
+
+(* THE STATEMENT HOLDS for the code as it is: regression inputs, per-month uncertainty inputs, same document *)
+Theorem C01_caltrack_roundtrip : C01_caltrack_statement.
+Proof.
+  intros s d Hwf Hk Hd. exists d, (reloaded_of true s). split; [exact Hd|].
+  split; [exact (C01_caltrack_from_doc_to_doc s d Hwf Hd)|].
+  split; [apply ct_inputs_restored|].
+  split; [intros m; rewrite (unc_restored_repaired s Hk); reflexivity|].
+  rewrite (ct_reserialise_repaired true s Hwf (month_keys_canonical _ Hk)). rewrite <- (ct_to_doc_native s Hwf). exact Hd.
+Qed.
+Print Assumptions C01_caltrack_roundtrip.
 
 (* the regression prediction (any function of the segment models, lookup tables and segment mapping) is restored *)
 Theorem C01_caltrack_predict_restored : forall (data result : Type) (predict_fn : ct_inputs -> data -> result),
-  forall r s d, wf_ct s -> ct_to_doc s = Some d ->
-  exists s', ct_from_doc_gen r d = Some s' /\ forall x, predict_fn (ct_inputs_of s') x = predict_fn (ct_inputs_of s) x.
-Proof. exact ct_predict_restored_l. Qed.
+  forall s d, wf_ct s -> ct_to_doc s = Some d ->
+  exists s', ct_from_doc d = Some s' /\ forall x, predict_fn (ct_inputs_of s') x = predict_fn (ct_inputs_of s) x.
+Proof.
+  intros data result predict_fn s d Hwf Hd. rewrite (ct_to_doc_native s Hwf) in Hd.
+  exact (ct_predict_restored_l data result predict_fn true s d Hwf Hd).
+Qed.
 Print Assumptions C01_caltrack_predict_restored.
 
-(* uncertainty inputs, as coded: kept exactly when the model has the single key "all" *)
-Theorem C01_caltrack_uncertainty_partial : forall s d, wf_ct s -> ct_to_doc s = Some d ->
-  Forall (fun kv => fst kv = KAll) (ct_unc s) ->
-  exists s', ct_from_doc d = Some s' /\ ct_unc s' = ct_unc s.
-Proof.
-  intros s d Hwf Hd Hk. exists (reloaded_of false s). split; [exact (ct_from_to false s d Hwf Hd)|].
-  apply unc_restored_all. exact Hk.
-Qed.
-Print Assumptions C01_caltrack_uncertainty_partial.
-
-(* ... and lost for every month of a month-keyed model (finding C01-K2, DESIGN D7) *)
-Theorem C01_caltrack_uncertainty_lost : forall s d m, wf_ct s -> ct_to_doc s = Some d ->
+(* regression witness (finding C01-K2, fixed by f37e6233): a reader that keeps the string keys loses the uncertainty
+   inputs of every month of a month-keyed model (it keeps them only for the single key "all") *)
+Theorem C01_regression_string_month_keys_refuted : forall s d m, wf_ct s -> ct_to_doc s = Some d ->
   Forall (fun kv => match fst kv with KMonth n => (0 <= n < 1000)%Z | _ => False end) (ct_unc s) ->
-  exists s', ct_from_doc d = Some s' /\ unc_lookup (ct_unc s') m = None.
+  exists s', ct_from_doc_before_f37e6233 d = Some s' /\ unc_lookup (ct_unc s') m = None.
 Proof.
-  intros s d m Hwf Hd Hk. exists (reloaded_of false s). split; [exact (ct_from_to false s d Hwf Hd)|].
-  apply unc_lost_months. exact Hk.
+  intros s d m Hwf Hd Hk. rewrite (ct_to_doc_native s Hwf) in Hd.
+  exists (reloaded_of false s). split; [exact (ct_from_to false s d Hwf Hd)|]. apply unc_lost_months. exact Hk.
 Qed.
-Print Assumptions C01_caltrack_uncertainty_lost.
+Print Assumptions C01_regression_string_month_keys_refuted.
 
-(* with the proposed repair of from_dict the month keys and hence the uncertainty inputs are restored *)
-Theorem C01_caltrack_uncertainty_repaired : forall s d, wf_ct s -> ct_to_doc s = Some d -> month_keys (ct_unc s) ->
-  exists s', ct_from_doc_repaired d = Some s' /\ ct_unc s' = ct_unc s.
+Theorem C01_regression_string_month_keys_partial : forall s d, wf_ct s -> ct_to_doc s = Some d ->
+  Forall (fun kv => fst kv = KAll) (ct_unc s) ->
+  exists s', ct_from_doc_before_f37e6233 d = Some s' /\ ct_unc s' = ct_unc s.
 Proof.
-  intros s d Hwf Hd Hk. exists (reloaded_of true s). split; [exact (ct_from_to true s d Hwf Hd)|].
-  apply unc_restored_repaired. exact Hk.
+  intros s d Hwf Hd Hk. rewrite (ct_to_doc_native s Hwf) in Hd.
+  exists (reloaded_of false s). split; [exact (ct_from_to false s d Hwf Hd)|]. apply unc_restored_all. exact Hk.
 Qed.
-Print Assumptions C01_caltrack_uncertainty_repaired.
+Print Assumptions C01_regression_string_month_keys_partial.
 
-(* re-serialisation, as coded: impossible as soon as the model carries metrics (finding C01-K3) *)
-Theorem C01_caltrack_reserialise_refuted : forall s d x l, wf_ct s -> ct_to_doc s = Some d -> ct_totals s = MNative (x :: l) ->
-  exists s', ct_from_doc d = Some s' /\ ct_to_doc s' = None.
-Proof.
-  intros s d x l Hwf Hd Ht. exists (reloaded_of false s). split; [exact (ct_from_to false s d Hwf Hd)|].
-  exact (ct_reserialise_fails false s x l Ht).
-Qed.
-Print Assumptions C01_caltrack_reserialise_refuted.
-
-(* with the proposed repair of the serialiser: the very same document, whichever reader *)
-Theorem C01_caltrack_reserialise_repaired : forall r s d, wf_ct s -> ct_to_doc s = Some d ->
-  Forall (fun kv => canonical (fst kv)) (ct_unc s) ->
-  exists s', ct_from_doc_gen r d = Some s' /\ ct_to_doc_repaired s' = Some d.
-Proof.
-  intros r s d Hwf Hd Hk. exists (reloaded_of r s). split; [exact (ct_from_to r s d Hwf Hd)|].
-  rewrite (ct_reserialise_repaired r s Hwf Hk). exact Hd.
-Qed.
-Print Assumptions C01_caltrack_reserialise_repaired.
+(* regression witness (finding C01-K3, fixed by 3d0f44c1): a serialiser that needs .json() on every object cannot write
+   a reloaded model that carries metrics *)
+Theorem C01_regression_objects_serialiser_refuted : forall r s x l, ct_totals s = MNative (x :: l) ->
+  ct_to_doc_objects (reloaded_of r s) = None.
+Proof. exact ct_reserialise_fails. Qed.
+Print Assumptions C01_regression_objects_serialiser_refuted.
 
 (* witness: one fitted segment, month-keyed uncertainty inputs, metrics *)
 Definition ct_witness : ct_state :=
@@ -473,21 +494,12 @@ Proof. unfold wf_ct, ct_witness. cbn. repeat split; repeat constructor. Qed.
 
 Example C01_caltrack_nonvacuous :
   wf_ct ct_witness /\ month_keys (ct_unc ct_witness) /\ (exists d, ct_to_doc ct_witness = Some d) /\
-  unc_lookup (ct_unc ct_witness) 1 <> None.
+  unc_lookup (ct_unc ct_witness) 1 <> None /\
+  (* the two regression models do fail on it *)
+  (exists d s', ct_to_doc ct_witness = Some d /\ ct_from_doc_before_f37e6233 d = Some s' /\ unc_lookup (ct_unc s') 1 = None) /\
+  (exists d s', ct_to_doc ct_witness = Some d /\ ct_from_doc d = Some s' /\ ct_to_doc_objects s' = None /\ ct_to_doc s' = Some d).
 Proof.
   split; [exact ct_witness_wf|]. split; [repeat constructor; cbn; discriminate|].
-  split; [eexists; vm_compute; reflexivity | vm_compute; discriminate].
+  split; [eexists; vm_compute; reflexivity|]. split; [vm_compute; discriminate|].
+  split; eexists; eexists; repeat split; vm_compute; reflexivity.
 Qed.
-
-Theorem C01_caltrack_statement_refuted : ~ C01_caltrack_statement.
-Proof.
-  intros H.
-  assert (Hk : month_keys (ct_unc ct_witness)) by (repeat constructor; cbn; discriminate).
-  assert (Hd : exists d, ct_to_doc ct_witness = Some d) by (eexists; vm_compute; reflexivity).
-  destruct Hd as [d Hd].
-  destruct (H ct_witness d ct_witness_wf Hk Hd) as (d1 & s' & Hd1 & Hf & _ & Hu & _).
-  rewrite Hd in Hd1. injection Hd1 as <-.
-  unfold ct_from_doc in Hf. rewrite (ct_from_to false ct_witness d ct_witness_wf Hd) in Hf. injection Hf as <-.
-  specialize (Hu 1%Z). vm_compute in Hu. discriminate Hu.
-Qed.
-Print Assumptions C01_caltrack_statement_refuted.
